@@ -593,6 +593,23 @@ where
         }
     }
 
+    /// Returns the minimum scratch-space size in bytes required by
+    /// [`cmux_assign_neg`][Self::cmux_assign_neg], which additionally keeps `a - res` in a temporary.
+    fn cmux_assign_neg_tmp_bytes<R, A, B>(&self, res_infos: &R, a_infos: &A, selector_infos: &B) -> usize
+    where
+        R: GLWEInfos,
+        A: GLWEInfos,
+        B: GGSWInfos,
+    {
+        let tmp_infos: GLWELayout = GLWELayout {
+            n: selector_infos.n(),
+            base2k: res_infos.base2k(),
+            k: res_infos.max_k().max(a_infos.max_k()),
+            rank: res_infos.rank(),
+        };
+        GLWE::<Vec<u8>>::bytes_of_from_infos(&tmp_infos) + self.cmux_tmp_bytes(&tmp_infos, &tmp_infos, selector_infos)
+    }
+
     // res = (a - res) * s + res
     fn cmux_assign_neg<R, A, S>(&self, res: &mut R, a: &A, s: &S, scratch: &mut Scratch<BE>)
     where
